@@ -29,6 +29,7 @@ import (
 	configv1 "github.com/istio-ecosystem/authservice/config/gen/go/v1"
 	"github.com/istio-ecosystem/authservice/internal"
 	"github.com/istio-ecosystem/authservice/internal/authz"
+	inthttp "github.com/istio-ecosystem/authservice/internal/http"
 	"github.com/istio-ecosystem/authservice/internal/oidc"
 )
 
@@ -172,9 +173,13 @@ func mustTriggerCheck(log telemetry.Logger, rules []*configv1.TriggerRule, req *
 		return true
 	}
 
+	// The rules apply to the path component only. Envoy sends the path together with the query
+	// string (and possibly a fragment), which must not take part in the decision.
+	path, _, _ := inthttp.GetPathQueryFragment(req.GetAttributes().GetRequest().GetHttp().GetPath())
+
 	for i, rule := range rules {
 		l := log.With("rule-index", i)
-		if matchTriggerRule(l, rule, req.GetAttributes().GetRequest().GetHttp().GetPath()) {
+		if matchTriggerRule(l, rule, path) {
 			return true
 		}
 	}
